@@ -164,9 +164,9 @@ def gen_body(rng, uid, allow_tplus=True, from_yaml=False):
         if line[:1] in META:
             line = "z" + line  # column-one formatting metacharacters are outside the property's domain
         lines.append(line)
-    if not lines:
+    if not lines and rng.random() < 0.6:
         lines = ["only u%sk0;" % uid]
-    return lines
+    return lines  # may be empty: the user wants the block empty
 
 
 # ------------------------------------------------------------------ history generation (driver side)
@@ -202,8 +202,9 @@ def gen_history(seeds, libids, round_no, i, nlang_hint=None):
                 ops.append({"op": "SET_CODE", "lang": lang, "pick": rng.random(),
                             "body": gen_body(rng, tag, allow_tplus=tplus, from_yaml=True)})
             elif x < 0.75:
+                body = gen_body(rng, tag, allow_tplus=tplus, from_yaml=True) or ["only u%sk0;" % tag]
                 ops.append({"op": "SET_DECL", "lang": rng.choice([l for l in langs if l != "lua"]),
-                            "pick": rng.random(), "body": gen_body(rng, tag, allow_tplus=tplus, from_yaml=True)})
+                            "pick": rng.random(), "body": body, "none_for_blank": rng.random() < 0.5})
             elif x < 0.88:
                 ops.append({"op": "EDIT_OUTSIDE", "lang": lang, "pick": rng.random(),
                             "text": ["stray text outside markers o%s" % tag,
@@ -412,6 +413,7 @@ def execute_history_c12(spec, camp):
     prev_amb = {}
     dirty_since_regen = set()  # kinds of ops since last REGEN
     decl_block = {}  # (path, lang) -> block name found for that declaration splicer
+    decl_none = set()  # declaration splicers written with None for blank lines
     cycle = 0
     outside_tokens = []
 
@@ -485,6 +487,8 @@ def execute_history_c12(spec, camp):
                 continue
             path, node = nodes[min(len(nodes) - 1, int(op["pick"] * len(nodes)))]
             store.decl[(path, lang)] = list(op["body"])
+            if op.get("none_for_blank"):
+                decl_none.add((path, lang))
             probe("set_decl")
             events.append(("SET_DECL", lang, path))
         elif kind == "UNSET":
@@ -520,7 +524,9 @@ def execute_history_c12(spec, camp):
             node = {"declarations": yd["declarations"]}
             for i in path:
                 node = node["declarations"][i]
-            node.setdefault("splicer", {})[lang] = list(body)
+            # an empty "-" entry of a YAML list is None; documented to mean a blank line
+            node.setdefault("splicer", {})[lang] = [
+                (None if (b == "" and (path, lang) in decl_none) else b) for b in body]
         # splicer_code
         if any(store.code.values()):
             sc = {}
@@ -540,11 +546,23 @@ def execute_history_c12(spec, camp):
                 ext = {"c": ".c", "f": ".f", "py": ".c", "lua": ".c"}[lang]
                 fn = "user_%s_%s%s" % (lang, chan, ext)
                 lines = ["%s hand-written splicer file" % COMMENT[lang]]
-                for n in sorted(sel):
+                for j, n in enumerate(sorted(sel)):
                     body, indent, _ = sel[n]
-                    lines.append("%s %s %s" % (COMMENT[lang], BEGIN, n))
+                    # people write the markers in different comment styles, with text after the name
+                    style = (len(n) + j + cycle) % 4
+                    if style == 0:
+                        b1, e1 = "%s %s %s" % (COMMENT[lang], BEGIN, n), "%s %s %s" % (COMMENT[lang], END, n)
+                    elif style == 1 and lang != "f":
+                        b1, e1 = "/* %s %s */" % (BEGIN, n), "/* %s %s */" % (END, n)
+                    elif style == 2:
+                        b1 = "%s %s %s   %s keep" % (COMMENT[lang], BEGIN, n, COMMENT[lang])
+                        e1 = "%s %s %s" % (COMMENT[lang], END, n)
+                    else:
+                        b1 = "    %s%s %s" % (COMMENT[lang], " " + BEGIN, n)
+                        e1 = "    %s %s %s (hand written)" % (COMMENT[lang], END, n)
+                    lines.append(b1)
                     lines += [(indent + b) if b.strip() else b for b in body]
-                    lines.append("%s %s %s" % (COMMENT[lang], END, n))
+                    lines.append(e1)
                     lines.append("text between blocks is ignored")
                 files_extra[IN_DIR + "/" + fn] = "\n".join(lines) + "\n"
                 if chan == "yaml":
@@ -617,6 +635,14 @@ def execute_history_c12(spec, camp):
                     continue
                 toks = re.findall(r"u\d+x\d+k\d+", " ".join(body))
                 found = set(name for name, (p, b) in uniq.items() if toks and any(toks[0] in x for x in b))
+                if lang == "c":
+                    # documented keys: "c" is the plain C wrapper, "c_buf" the bufferify variant; code
+                    # given for one must not replace the default of the other
+                    leaked = sorted(n for n in found if re.search(r"_(bufferify|CFI|cfi)$", n))
+                    for n in leaked:
+                        vs.append({"inv": "I12.2-default", "kind": "c:default:declaration-splicer-leaked-into-variant:plain",
+                                   "path": uniq[n][0], "detail": {"block": n, "pattern": name_pattern(n), "cycle": cycle}})
+                    found -= set(leaked)
                 if not found:
                     if toks and toks[0] in alltext.get(lang, ""):
                         continue  # landed in an ambiguous block name: not asserted
